@@ -128,7 +128,8 @@ structure State where
   run : RunPc := .idle
   waiters : List Waiter
   setters : List Setter
-  /-- ghost: every head put into a waiter's channel: (waiter, connection that was best at that moment, head) -/
+  /-- ghost: every head offered to a waiter's channel (by subscribe's short circuit or by notifySubscribers):
+  (waiter, connection that was best at that moment and reported it, head) -/
   log : List (Nat × Nat × Nat) := []
   deriving DecidableEq, Repr, Inhabited
 
@@ -209,8 +210,9 @@ def step (v : Variant) (s : State) : Action → Option State
           let off := match x.offered with | none => h | some m => max m h
           match x.buf with
           | u :: rest => some { (s.setW w { x with buf := rest, offered := some off }) with
-              run := .nPut h (max u h) w (todo.erase w) }
-          | [] => some { (s.setW w { x with offered := some off }) with run := .nPut h h w (todo.erase w) }
+              run := .nPut h (max u h) w (todo.erase w), log := s.log ++ [(w, s.best.getD 0, h)] }
+          | [] => some { (s.setW w { x with offered := some off }) with
+              run := .nPut h h w (todo.erase w), log := s.log ++ [(w, s.best.getD 0, h)] }
         | none => none
       else none
     | _ => none
@@ -218,9 +220,7 @@ def step (v : Variant) (s : State) : Action → Option State
     | .nPut h h' w todo =>
       match s.waiters[w]? with
       | some x =>
-        if x.buf.length < 1 then
-          some { (s.setW w { x with buf := x.buf ++ [h'] }) with
-            run := .nLoop h todo, log := s.log ++ [(w, s.best.getD 0, h')] }
+        if x.buf.length < 1 then some { (s.setW w { x with buf := x.buf ++ [h'] }) with run := .nLoop h todo }
         else some { s with run := .nLoop h todo }
       | none => none
     | _ => none
